@@ -34,6 +34,10 @@ func buildQuery(c *Ctx, o *Obligation, forCVC bool) string {
 	}
 	b.WriteString("(set-logic ALL)\n")
 	fmt.Fprintf(&b, "; obligation %s\n; %s\n", o.Name, o.Where)
+	for _, l := range c.sortDecls {
+		b.WriteString(l)
+		b.WriteByte('\n')
+	}
 	for i := 0; i < o.CtxLen; i++ {
 		b.WriteString(c.lines[i])
 		b.WriteByte('\n')
